@@ -51,6 +51,16 @@ func (r *rewriter) site(kind string) *ast.BasicLit {
 
 func str(s string) *ast.BasicLit { return &ast.BasicLit{Kind: token.STRING, Value: strconv.Quote(s)} }
 
+// mutexID: verifsim.MutexID(&recv) when the receiver expression is addressable
+// (identifier or field selection), else 0 (identity unknown).
+func mutexID(recv ast.Expr) ast.Expr {
+	switch recv.(type) {
+	case *ast.Ident, *ast.SelectorExpr:
+		return call("MutexID", &ast.UnaryExpr{Op: token.AND, X: recv})
+	}
+	return &ast.BasicLit{Kind: token.INT, Value: "0"}
+}
+
 func call(fn string, args ...ast.Expr) *ast.CallExpr {
 	return &ast.CallExpr{Fun: &ast.SelectorExpr{X: ast.NewIdent("verifsim"), Sel: ast.NewIdent(fn)}, Args: args}
 }
@@ -318,11 +328,11 @@ func (r *rewriter) stmt(s ast.Stmt) []ast.Stmt {
 		if recv, name, ok := methodCall(st); ok {
 			switch name {
 			case "Lock":
-				return []ast.Stmt{&ast.ExprStmt{X: call("Acquire", r.site("lock"),
-					&ast.SelectorExpr{X: recv, Sel: ast.NewIdent("TryLock")}, &ast.SelectorExpr{X: recv, Sel: ast.NewIdent("Lock")})}}
+				return []ast.Stmt{&ast.ExprStmt{X: call("AcquireM", r.site("lock"),
+					&ast.SelectorExpr{X: recv, Sel: ast.NewIdent("TryLock")}, &ast.SelectorExpr{X: recv, Sel: ast.NewIdent("Lock")}, mutexID(recv), ast.NewIdent("true"))}}
 			case "RLock":
-				return []ast.Stmt{&ast.ExprStmt{X: call("Acquire", r.site("rlock"),
-					&ast.SelectorExpr{X: recv, Sel: ast.NewIdent("TryRLock")}, &ast.SelectorExpr{X: recv, Sel: ast.NewIdent("RLock")})}}
+				return []ast.Stmt{&ast.ExprStmt{X: call("AcquireM", r.site("rlock"),
+					&ast.SelectorExpr{X: recv, Sel: ast.NewIdent("TryRLock")}, &ast.SelectorExpr{X: recv, Sel: ast.NewIdent("RLock")}, mutexID(recv), ast.NewIdent("false"))}}
 			case "Wait":
 				return []ast.Stmt{r.yield("wait"), st, r.yield("post")}
 			}
